@@ -701,6 +701,8 @@ func master() int {
 			"samples":                merged.Samples,
 			"per_phase":              merged.PerPhase,
 			"enumerated_spaces":      spaces,
+			"exhaustive":             false, // the sampled phases are never exhaustive; completely enumerated sub-spaces are listed in enumerated_spaces (thorough tier)
+			"tier_note":              map[string]string{"quick": "seeded sampling only", "thorough": "seeded sampling plus the enumeration phases listed in enumerated_spaces"}[tier],
 			"runs_per_hour":          int64(float64(merged.Evaluations) / wall * 3600),
 			"sim_steps":              merged.SimSteps,
 			"faults_fired":           merged.Faults,
